@@ -297,6 +297,9 @@ type verifC16Handler struct {
 	args    []error
 	bufs    []*verifC16Buf // bufs[0] = original, then one per replacement handed out
 	lastErr error          // what the most recent OnError call returned as error (nil: a buffer)
+	// cloneReplacements: stream replacements are handed out as one half of a stream clone (the
+	// other half is discarded), as a replicating backend does
+	cloneReplacements bool
 }
 
 func (h *verifC16Handler) OnError(err error) (Buffer, error) {
@@ -320,6 +323,11 @@ func (h *verifC16Handler) OnError(err error) (Buffer, error) {
 	h.lastErr = nil
 	b := verifC16NewBuf(h.ref, h.idBase+len(h.bufs), kind, h.maxT, level)
 	h.bufs = append(h.bufs, b)
+	if h.cloneReplacements && (b.kind == verifC16Reader || b.kind == verifC16Chunk) {
+		b1, b2 := b.buf.CloneStream()
+		go b2.Discard() // in its own goroutine: a clone waits until its sibling has said how it will read
+		return b1, nil
+	}
 	return b.buf, nil
 }
 
